@@ -10,6 +10,7 @@ INVARIANT DurationIsMaxEnd
 INVARIANT SpansCover
 INVARIANT ErrExact
 INVARIANT FlatExact
+INVARIANT MappingExact
 INVARIANT Forward
 INVARIANT EdgesJustified
 INVARIANT ConflictsLinked
